@@ -664,12 +664,103 @@ fn recheck(c: &Case) -> Vec<Violation> {
         }
         return vec![];
     }
+    if let Some(code) = c.cfg.get("entry_types").and_then(|x| x.as_array()) {
+        let code: Vec<u8> = code.iter().filter_map(|x| x.as_u64()).map(|x| x as u8).collect();
+        return check_entry_types(&code).into_iter().map(|(s, d)| Violation::new("C17", s, d, c)).collect();
+    }
     let s = IdSubject::of(&c.coords);
     let h = hist_of(&c.cfg["history"]);
     match replay(&s, &h) {
         Ok((_, fs)) => fs.into_iter().map(|f| Violation::new("C17", f.sig, f.detail, c)).collect(),
         Err(f) => vec![Violation::new("C17", f.sig, f.detail, c)],
     }
+}
+
+// ---- the type ids a FunctionBuilder hands out ---------------------------------------------------
+// `FunctionBuilder::new` adds (or finds) the function's type and the type of its entry sequence.
+// Every sequence of <= 4 operations over {build a function returning [i32] / [i64] / [], add a fresh
+// type}: each entry-sequence type id resolves to a live `[] -> results` type, equal result lists share
+// it, and a type added later never gets an id that was already handed out.
+
+fn entry_type_ops(code: &[u8]) -> Vec<String> {
+    code.iter().map(|c| match c { 0 => "build->[i32]".to_string(), 1 => "build->[i64]".to_string(), 2 => "build->[]".to_string(), _ => "types.add(fresh)".to_string() }).collect()
+}
+
+fn check_entry_types(code: &[u8]) -> Option<(String, String)> {
+    let r = catch_unwind(AssertUnwindSafe(|| -> Option<(String, String)> {
+        let mut m = Module::default();
+        let mut built: Vec<(FunctionId, Vec<ValType>)> = vec![];
+        let mut handed_out: Vec<walrus::TypeId> = vec![];
+        let mut fresh = 0usize;
+        for c in code {
+            if *c < 3 {
+                let results: Vec<ValType> = match c { 0 => vec![ValType::I32], 1 => vec![ValType::I64], _ => vec![] };
+                let mut b = FunctionBuilder::new(&mut m.types, &[], &results);
+                {
+                    let mut body = b.func_body();
+                    match c { 0 => { body.i32_const(1); } 1 => { body.i64_const(1); } _ => {} }
+                }
+                let f = b.finish(vec![], &mut m.funcs);
+                built.push((f, results));
+            } else {
+                // a signature nothing else in this model uses
+                let params: Vec<ValType> = std::iter::repeat(ValType::F32).take(fresh + 1).collect();
+                fresh += 1;
+                let id = m.types.add(&params, &[ValType::F64]);
+                if handed_out.contains(&id) {
+                    return Some(("type-id-handed-out-twice".into(), format!("types.add of a fresh signature returned {:?}, which a FunctionBuilder had already been given", id)));
+                }
+                handed_out.push(id);
+            }
+            // every entry-sequence type so far
+            let mut by_results: Vec<(Vec<ValType>, walrus::TypeId)> = vec![];
+            for (f, results) in &built {
+                let lf = match &m.funcs.get(*f).kind { FunctionKind::Local(l) => l, _ => continue };
+                let ty = match lf.block(lf.entry_block()).ty { ir::InstrSeqType::MultiValue(t) => t, ir::InstrSeqType::Simple(_) => continue };
+                let live: Vec<walrus::TypeId> = m.types.iter().map(|t| t.id()).collect();
+                if !live.contains(&ty) {
+                    return Some(("entry-type-id-denotes-nothing".into(), format!("the entry sequence of a function built with results {:?} carries {:?}, which is not among the module's types", results, ty)));
+                }
+                let t = m.types.get(ty);
+                if !t.params().is_empty() || t.results() != &results[..] {
+                    return Some(("entry-type-id-denotes-other-type".into(), format!("the entry sequence of a function built with results {:?} carries {:?} = {:?} -> {:?}", results, ty, t.params(), t.results())));
+                }
+                if let Some((_, other)) = by_results.iter().find(|(r, _)| r == results) {
+                    if *other != ty {
+                        return Some(("entry-type-not-shared".into(), format!("two functions built with results {:?} carry the entry types {:?} and {:?}", results, other, ty)));
+                    }
+                } else {
+                    by_results.push((results.clone(), ty));
+                }
+                if !handed_out.contains(&ty) {
+                    handed_out.push(ty);
+                }
+            }
+        }
+        None
+    }));
+    match r {
+        Ok(x) => x,
+        Err(p) => Some((format!("entry-type-panic:{}", crate::pipe::norm_panic(&panic_msg(p))), String::new())),
+    }
+}
+
+fn entry_type_sequences() -> Vec<Vec<u8>> {
+    let mut out: Vec<Vec<u8>> = vec![vec![]];
+    let mut frontier = out.clone();
+    for _ in 0..4 {
+        let mut next = vec![];
+        for s in &frontier {
+            for c in 0..4u8 {
+                let mut t = s.clone();
+                t.push(c);
+                next.push(t);
+            }
+        }
+        out.extend(next.iter().cloned());
+        frontier = next;
+    }
+    out
 }
 
 pub fn run(args: &Args) -> i32 {
@@ -705,6 +796,19 @@ pub fn run(args: &Args) -> i32 {
             let c = Case { family: "ids".into(), coords: coll.to_string(), wasm: vec![], cfg: json!({"history": hist_json(&f.hist)}) };
             viol.push(Violation::new("C17", f.finding.sig, f.finding.detail, &c));
         }
+    }
+    {
+        let seqs = entry_type_sequences();
+        for code in &seqs {
+            ev.evaluations += 1;
+            ev.states += 1;
+            ev.transitions += code.len() as u64;
+            if let Some((sig, d)) = check_entry_types(code) {
+                let c = Case { family: "ids".into(), coords: format!("builder entry types: {:?}", entry_type_ops(code)), wasm: vec![], cfg: json!({"entry_types": code}) };
+                viol.push(Violation::new("C17", sig, d, &c));
+            }
+        }
+        ev.extra.insert("builder_entry_types".into(), json!({"sequences": seqs.len(), "max_length": 4}));
     }
     // the parallel build exposes parallel iterators over the function collection: same histories,
     // explored by `wreal ids` (walrus --features parallel on the real rayon-core)
